@@ -64,6 +64,22 @@ type Mod[T any] struct {
 	// separate getter map (circuit breaker): getters may report rules without controller
 	SeparateReported bool
 	Preface          func() string // extra constructor arguments (flow: constants)
+	// GenRule (set by RegisterGenerators): a valid rule of a strategy served only by the generator the
+	// harness registered through the module's Set...Generator hook; that generator runs GenAct and
+	// yields no controller
+	GenRule func(res string) *T
+}
+
+// GenAct is what the harness-registered generators do when a rebuild calls them (one shot): nothing
+// (nil), panic (a failing load), or whatever a binary puts there (vh-c14: requests).
+var GenAct func()
+
+// RunGenAct is called by the registered generators.
+func RunGenAct() {
+	if f := GenAct; f != nil {
+		GenAct = nil
+		f()
+	}
 }
 
 type Op[T any] struct {
@@ -151,7 +167,7 @@ func GenCase[T any](m *Mod[T], r *rng.R, prefix string, id int, reuseHeavy bool)
 	alpha := m.Alphabet(r, c.Res[1:], prefix+"-"+strconv.Itoa(id)+"-ref")
 	nops := 3 + r.Intn(5)
 	for k := 0; k < nops; k++ {
-		if k > 0 && r.Chance(3, 20) {
+		if k > 0 && c.Ops[k-1].Gen != "fail" && r.Chance(3, 20) {
 			// identical reload: same arguments, freshly allocated objects
 			prev := c.Ops[k-1]
 			o := Op[T]{Kind: prev.Kind, Res: prev.Res, Rep: true}
@@ -233,6 +249,22 @@ func GenCase[T any](m *Mod[T], r *rng.R, prefix string, id int, reuseHeavy bool)
 			m.SetID(t, strconv.Itoa(k*100+j+1))
 			o.Rules = append(o.Rules, t)
 		}
+		if m.GenRule != nil && (o.Kind == "all" || o.Res > 0) && r.Chance(1, 6) {
+			// a rule served by the harness-registered generator, which yields no controller or panics
+			// (the load then reports an error and must leave everything as it was)
+			gres := o.Res
+			if o.Kind == "all" {
+				gres = 1 + r.Intn(c.NRes)
+			}
+			g := m.GenRule(c.Res[gres])
+			m.SetID(g, strconv.Itoa(k*100+90))
+			at := r.Intn(len(o.Rules) + 1)
+			o.Rules = append(o.Rules[:at], append([]*T{g}, o.Rules[at:]...)...)
+			o.Gen = "ignored"
+			if r.Chance(2, 3) {
+				o.Gen = "fail"
+			}
+		}
 		c.Ops = append(c.Ops, o)
 	}
 	return c
@@ -255,6 +287,10 @@ func RunHooked2[T any](m *Mod[T], c Case[T], probe bool, before, after func(k in
 	var out []Obs[T]
 	for k, o := range c.Ops {
 		var ob Obs[T]
+		GenAct = nil
+		if o.Gen == "fail" {
+			GenAct = func() { panic("generator failure injected by the harness") }
+		}
 		if before != nil {
 			before(k)
 		}
@@ -329,6 +365,7 @@ func RunHooked2[T any](m *Mod[T], c Case[T], probe bool, before, after func(k in
 		if ob.Changed && !ob.Err && !ob.Panicked {
 			eff++
 		}
+		GenAct = nil
 		out = append(out, ob)
 		if after != nil {
 			after(k)
@@ -550,6 +587,10 @@ func Monitor[T any](m *Mod[T], c Case[T], obs []Obs[T], rep *emit.Report) (nontr
 			} else {
 				expected[o.Res] = filt(o.Res, false)
 			}
+		}
+		if ob.Err && o.Gen == "fail" && k > 0 && !sameSnaps(m, obs[k-1].Snaps, ob.Snaps) {
+			fail("C13_unchanged_noop", "failed-load-changed-state", fmt.Sprintf("op %d failed (the generator of one of its rules panicked) but the enforced / reported rules differ from before", k))
+			return
 		}
 		if !ob.Changed {
 			// unchanged (or rejected): the whole observable state must be what it was
